@@ -64,7 +64,8 @@ class DirectoryMatcher:
         """
         if dir_path == "/":
             return self._check_root_match(dir_path, path_str)
-        if path_str.startswith(dir_path):
+        prefix = dir_path.rstrip("/")
+        if path_str == prefix or path_str.startswith(prefix + "/"):
             depth = len(dir_path.split("/"))
             return True, depth
         return False, -1
